@@ -147,11 +147,7 @@ class HarnessEvent:
             nd = KERNEL.next_due()
             if nd is None or nd >= deadline:
                 KERNEL.advance_to(deadline)
-                if not progressed:
-                    d.idle_waits += 1
-                    d.stuck_check()
-                else:
-                    d.idle_waits = 0
+                d.stuck_check()               # one more 5 s wait went by: did anything observable change?
                 return False
             KERNEL.advance_to(nd)
 
@@ -210,6 +206,7 @@ class Driver:
             self._last_sig = sig
             self.idle_waits = 0
             return
+        self.idle_waits += 1
         if self.idle_waits >= self.stuck_after:
             raise HarnessAbort("stuck")
 
